@@ -190,7 +190,7 @@ impl<'a> SubtypeChecker<'a> {
         }
 
         for (i, ((an, a), (bn, b))) in a.params.iter().zip(b.params.iter()).enumerate() {
-            if an != bn {
+            if !an.eq_ignore_ascii_case(bn) {
                 let (expected, _, found, _) = self.expected_found(an, at, bn, bt);
                 bail!("expected function parameter {i} to be named `{expected}`, found name `{found}`");
             }
@@ -478,7 +478,8 @@ impl<'a> SubtypeChecker<'a> {
                     bail!("mismatched memory limits");
                 }
 
-                if apsl != bpsl {
+                // An absent page size is the default page size (64KiB)
+                if apsl.unwrap_or(16) != bpsl.unwrap_or(16) {
                     bail!("mismatched page_size_log2 for memories");
                 }
 
@@ -677,7 +678,7 @@ impl<'a> SubtypeChecker<'a> {
             a.0.iter()
                 .zip(b.0.iter())
                 .enumerate()
-                .find(|(_, (a, b))| a != b)
+                .find(|(_, (a, b))| !a.eq_ignore_ascii_case(b))
         {
             let (expected, _, found, _) = self.expected_found(a, at, b, bt);
             bail!("expected enum case {index} to be named `{expected}`, found an enum case named `{found}`");
@@ -700,7 +701,7 @@ impl<'a> SubtypeChecker<'a> {
             a.0.iter()
                 .zip(b.0.iter())
                 .enumerate()
-                .find(|(_, (a, b))| a != b)
+                .find(|(_, (a, b))| !a.eq_ignore_ascii_case(b))
         {
             let (expected, _, found, _) = self.expected_found(a, at, b, bt);
             bail!("expected flag {index} to be named `{expected}`, found a flag named `{found}`");
@@ -720,7 +721,7 @@ impl<'a> SubtypeChecker<'a> {
         }
 
         for (i, ((an, a), (bn, b))) in a.fields.iter().zip(b.fields.iter()).enumerate() {
-            if an != bn {
+            if !an.eq_ignore_ascii_case(bn) {
                 let (expected, _, found, _) = self.expected_found(an, at, bn, bt);
                 bail!("expected record field {i} to be named `{expected}`, found a field named `{found}`");
             }
@@ -743,7 +744,7 @@ impl<'a> SubtypeChecker<'a> {
         }
 
         for (i, ((an, a), (bn, b))) in a.cases.iter().zip(b.cases.iter()).enumerate() {
-            if an != bn {
+            if !an.eq_ignore_ascii_case(bn) {
                 let (expected, _, found, _) = self.expected_found(an, at, bn, bt);
                 bail!("expected variant case {i} to be named `{expected}`, found a case named `{found}`");
             }
